@@ -863,6 +863,8 @@ class Engine:
                 return r
             if v.kind in ("list", "dict", "set", "tlist") or v.cls in getattr(self.reg, "external_classes", ()):
                 return [("ok", st, VFunc("bound", v, name))]
+            if v.kind == "pylist" and name == "append":
+                return [("ok", st, VFunc("bound", v, name))]       # see call_method: append to a list display of concrete length
             if default is not None:
                 return [("ok", st, default)]
             return [self.raise_(st, "AttributeError")]
@@ -1145,6 +1147,9 @@ class Engine:
                     raise Unsupported(f"method {key} has no contract")
         if isinstance(recv, VObj) and recv.kind in ("list", "dict", "set", "tlist"):
             return B.container_method(self, st, recv, name, pos, kw)
+        if isinstance(recv, VObj) and recv.kind == "pylist" and name == "append" and len(pos) == 1 and not kw:
+            # append to a list display of concrete length (heterogeneous / non-scalar entries): one more entry
+            return [("ok", st.updobj(recv.oid, items=tuple(st.objs[recv.oid]["items"]) + (pos[0],)), NONE)]
         if isinstance(recv, VOpaque):
             return [("ok", st, VOpaque(recv.what + "." + name + "()"))]
         if isinstance(recv, VConc) and isinstance(recv.py, dict) and name == "get":
